@@ -26,12 +26,22 @@ def site(fi, node=None):
 
 def check(m, run):
     ev = lambda c, meth='derivatives': m.cls('evaluators', c).methods[meth]
-    ax6(m, run, [ev('SurfaceEvaluator'), ev('SurfaceEvaluator2')])
+    # the derivative evaluators are decided as exact polynomial / rational-function identities on symbolic basis tables, control points and
+    # weighted derivatives (A36S, A34S, RQ2) and on labelled nets of every small degree (SKEL); the rules that read the loop spelling corroborate
+    from .. import skel_drivers as _sd
+    n0 = len(run.obs)
+    _sd.c02(m, run)
+    _sd.a36s(m, run)
+    _sd.a34s(m, run)
+    _sd.rq2(m, run)
+    sem_ok = all(o.ok for o in run.obs[n0:])
+    with run.corroborating(sem_ok, 'A36S/A34S/RQ2', rules=('AX6.table-order', 'BC1.basis-control-pairing', 'RQ1.quotient-rule', 'A34.alternative-evaluator')):
+        ax6(m, run, [ev('SurfaceEvaluator'), ev('SurfaceEvaluator2')])
+        bc1(m, run, [ev(c) for c in ('CurveEvaluator', 'SurfaceEvaluator')])
+        rq1(m, run, ev('CurveEvaluatorRational'), 1)
+        rq1(m, run, ev('SurfaceEvaluatorRational'), 2)
+        a34(m, run, ev('CurveEvaluator2'), ev('SurfaceEvaluator2'))
     tn1(m, run)
-    bc1(m, run, [ev(c) for c in ('CurveEvaluator', 'SurfaceEvaluator')])
-    rq1(m, run, ev('CurveEvaluatorRational'), 1)
-    rq1(m, run, ev('SurfaceEvaluatorRational'), 2)
-    a34(m, run, ev('CurveEvaluator2'), ev('SurfaceEvaluator2'))
     pk1(m, run)
     pk2(m, run)
     funcs = [ev(c) for c in ('CurveEvaluator', 'CurveEvaluator2', 'SurfaceEvaluator', 'SurfaceEvaluator2')] + \
@@ -49,11 +59,6 @@ def check(m, run):
     c16.check_binomial(m, run)
     for key, node in c16.floored_factor_findings(m.func('linalg.binomial_coefficient').node):
         run.ob('FD1.no-floored-factor', 'linalg.binomial_coefficient :: ' + key, False, 'a running product is multiplied by a floor-divided factor: floor(a/b)*c is not floor(a*c/b)', site(m.func('linalg.binomial_coefficient'), node))
-    try:
-        from .. import skel_drivers
-        skel_drivers.c02(m, run)
-    except ImportError:
-        run.note('SK2', 'evaluators', 'SKEL drivers not available in this build')
     run.floor('AX6.table-order', 3, 'SKL writes in the two surface derivative evaluators')
     run.floor('RQ1.quotient-rule', 8, 'A4.2 (1 term) + A4.4 (3 terms) index sums and binomials')
     tn2(m, run)
